@@ -287,6 +287,14 @@ ST_WITNESSES = [
     # A returns B, B looks at A (sees nil) and returns (1): A is (1) afterwards
     {"k": "st", "cells": [[["r", L(1)]], [["t", 0], ["r", cons(1, None)]]], "iters": [], "nev": 0,
      "roots": [["o", L(0)]], "ops": [["first", 0], ["count", 0]]},
+    # lazy seqs ON THE WAY of a follow-up are not asked (Spec.v, ask_inner; the thorough alarm of seed 0):
+    # A returns B, B returns C, C looks at A (sees nil: A is nil for ever) and returns (0): B, which
+    # nobody had asked, is (0) when asked later -- not the nil the follow-up from A arrived at
+    {"k": "st", "cells": [[["r", L(1)]], [["r", L(2)]], [["t", 0], ["rt", None]]], "iters": [], "nev": 0,
+     "roots": [["o", L(2)], ["o", L(0)], ["o", L(1)]], "ops": [["first", 0], ["first", 1], ["first", 2]]},
+    # the converse: C looks at B while the follow-up from A passes through B: that look ASKS B (nil, kept)
+    {"k": "st", "cells": [[["r", L(1)]], [["r", L(2)]], [["t", 1], ["r", cons(5, None)]]], "iters": [], "nev": 0,
+     "roots": [["o", L(0)], ["o", L(1)]], "ops": [["first", 0], ["first", 1]]},
 ]
 
 # F-06c: A returns B, B looks at A and then raises: A stays realized as empty
